@@ -20,6 +20,10 @@ type Val struct {
 	Fn    *FnVal     // statically known function value
 	Elems []Val      // for sequence values built from a local array: the elements (T is also set)
 	Inner *Val       // interface value wrapping this (for io.Writer(*strings.Builder) etc.)
+	// a sequence whose last elements are pointers to local records that are still under construction:
+	// the term is LazyBase with LazyTail appended, each element read when the term is needed (T is "")
+	LazyBase string
+	LazyTail []Val
 }
 
 type FnVal struct {
